@@ -37,6 +37,9 @@ fn case_t<T: Sc>(rng: &mut Rng, case: u64, out: &mut CaseOut) {
         }
     };
     out.seen("class", class);
+    if case < 16 {
+        out.sample(json!({"class": class, "N": sf.n, "M": sf.m, "P": sf.p, "degrees_of_freedom": sf.nu, "alpha_hat": sf.alpha, "scalar": T::NAME}));
+    }
     out.seen("degrees_of_freedom", format!("{}", sf.nu));
     out.nontrivial.push(spec.hash());
     let cov = widen(sf.stats.covariance_matrix());
